@@ -409,6 +409,7 @@ func ruleSandboxBindsLibrary(p *Program, r *Report) {
 	// data-flow formulation: the scope argument of the evaluation call is, on every incoming path, derived from
 	// With("//", …) or SafeStdScope()
 	var bound func(v ssa.Value, seen map[ssa.Value]bool) bool
+	var boundRet func(g *ssa.Function, idx int, seen map[ssa.Value]bool) bool
 	bound = func(v ssa.Value, seen map[ssa.Value]bool) bool {
 		if seen[v] {
 			return true // loop-carried: decided by the other edges
@@ -430,6 +431,8 @@ func ruleSandboxBindsLibrary(p *Program, r *Report) {
 			switch {
 			case callee == safe:
 				return true
+			case callee.Pkg == ce.Pkg && callee.Blocks != nil && callee.Signature.Results().Len() == 1 && callee.Signature.Recv() == nil:
+				return boundRet(callee, 0, seen)
 			case callee.Name() == "With" && len(x.Call.Args) >= 2:
 				if k, ok := x.Call.Args[1].(*ssa.Const); ok && k.Value != nil && k.Value.ExactString() == `"//"` {
 					return true
@@ -444,9 +447,38 @@ func ruleSandboxBindsLibrary(p *Program, r *Report) {
 				return false
 			}
 		case *ssa.Extract:
+			if c, ok := x.Tuple.(*ssa.Call); ok {
+				if g := c.Call.StaticCallee(); g != nil && g.Pkg == ce.Pkg && g.Blocks != nil && g != safe {
+					if ok, _ := errPropagated(c); !ok {
+						return false
+					}
+					return boundRet(g, x.Index, seen)
+				}
+			}
 			return bound(x.Tuple, seen)
 		}
 		return false
+	}
+	// a scope built by a helper of the package: every return that does not carry a non-nil error returns a bound scope
+	boundRet = func(g *ssa.Function, idx int, seen map[ssa.Value]bool) bool {
+		r.Fn(FnName(g))
+		n := 0
+		okAll := true
+		ForEachInstr(g, func(ins ssa.Instruction) {
+			ret, ok := ins.(*ssa.Return)
+			if !ok || idx >= len(ret.Results) {
+				return
+			}
+			last := len(ret.Results) - 1
+			if last != idx && types.Identical(ret.Results[last].Type(), types.Universe.Lookup("error").Type()) && !IsNilConst(RetVal(ret, last)) {
+				return // error return: the caller propagates it (checked at the call)
+			}
+			n++
+			if !bound(RetVal(ret, idx), seen) {
+				okAll = false
+			}
+		})
+		return okAll && n > 0
 	}
 	for i, ec := range evalCalls {
 		var scopeArg ssa.Value
